@@ -49,6 +49,17 @@ pub fn run(ctx: &'static Ctx) {
         match i { 0 => d.types.retain(|(n, _)| n != "EIP712Domain"), 1 => { d.types.retain(|(n, _)| n != "EIP712Domain"); d.domain = J::Obj(vec![]); } _ => { d.types.clear(); d.domain = J::Obj(vec![]); } }
         check_doc(ctx, P, "no-domain-type", i, "no-domain-type", &d);
     });
+    // ill-formed domain types (and no domain type) combined with an empty or absent domain VALUE: refusal must not hinge on
+    // the domain value being there (the CLI layer replays these with and without --message-hash)
+    let mut ill: Vec<Vec<Sym>> = vec![vec![]]; { let syms: Vec<Sym> = (0..8u8).map(|n| (n, 0)).chain([(0u8, 2u8), (2, 7), (3, 1)]).collect();
+        let mut frontier: Vec<Vec<Sym>> = vec![vec![]]; for _ in 0..3 { let mut next = Vec::new(); for h in &frontier { for s in &syms { let mut n = h.clone(); n.push(*s); next.push(n); } } ill.extend(next.iter().cloned()); frontier = next; } }
+    let ill: Vec<Vec<Sym>> = ill.into_iter().filter(|seq| { let d = doc_for(seq); !refmodel::eip712::domain_type_well_formed(d.members("EIP712Domain").unwrap()) }).collect();
+    ctx.sweep("ill-formed-type-without-domain-value", "every ill-formed domain type of up to 3 members over 11 symbols x domain value {empty object, key absent, null} (and no domain type at all): refused", (ill.len() * 3) as u64, |i| {
+        let seq = &ill[i as usize / 3]; let mode = i % 3; let mut d = doc_for(seq); d.domain = if mode == 2 { J::Null } else { J::Obj(vec![]) };
+        let mut text = d.to_json().reordered(i % 2).to_text();
+        if mode == 1 { let cut = ["\"domain\":{},", ",\"domain\":{}"]; for c in cut { if text.contains(c) { text = text.replacen(c, "", 1); break; } } }
+        check_json(ctx, P, "ill-formed-type-without-domain-value", i, &format!("ill-formed,domain-value={}", ["empty", "absent", "null"][mode as usize]), &text, (refmodel::json::Class::Reject, "malformed EIP712Domain type".into()));
+    });
     let wf = ctx.classes_matching(|c| c.ends_with(":accepted")); let rj = ctx.classes_matching(|c| c.ends_with(":rejected"));
     ctx.guard_check("well-formed and malformed domains both seen", wf > 0 && rj > 0, format!("{wf} accepting classes, {rj} rejecting classes"));
 }
